@@ -8,7 +8,12 @@ import (
 	"bytes"
 	"fmt"
 	"math/rand"
+	"sync"
+	"time"
 
+	"github.com/pyroscope-io/pyroscope/pkg/agent"
+	"github.com/pyroscope-io/pyroscope/pkg/agent/spy"
+	"github.com/pyroscope-io/pyroscope/pkg/agent/upstream"
 	"github.com/pyroscope-io/pyroscope/pkg/structs/transporttrie"
 	"verifharness/lib"
 	"verifharness/lib/trieu"
@@ -32,6 +37,13 @@ type Input struct {
 	//   "mutate-after"  the caller scribbles over the key slice right after Insert returns
 	Reuse string `json:"reuse,omitempty"`
 	Ratio string `json:"ratio,omitempty"`
+	// session level: one scripted spy per profile type; what it reports in each upload window
+	Sess []SessType `json:"sess,omitempty"`
+}
+
+type SessType struct {
+	Type string       `json:"type"`
+	Wins [][]trieu.KV `json:"wins"`
 }
 
 func gcd(a, b int) int {
@@ -202,7 +214,164 @@ func gen(r *rand.Rand, idx int, tier string) Input {
 			}
 		}
 	}
+	// counts around 2^63 and 2^64-1 on ONE side of a stack present in both snapshots (or only in prev)
+	if in.Class != "wide" && len(in.Cur) > 0 && idx%9 == 4 {
+		big := lib.Pick(r, []uint64{1 << 63, 1<<63 + 10, 1<<64 - 1, 1<<63 - 1, 1<<64 - 7})
+		small := lib.Pick(r, []uint64{0, 3, 1 << 40, 1<<63 - 1})
+		k := append([]byte{}, lib.Pick(r, in.Cur).K...)
+		drop := func(ops []Op) []Op {
+			res := ops[:0:0]
+			for _, o := range ops {
+				if !bytes.Equal(o.K, k) {
+					res = append(res, o)
+				}
+			}
+			return res
+		}
+		in.Cur, in.Prev = drop(in.Cur), drop(in.Prev)
+		switch r.Intn(4) {
+		case 0: // current huge, previous small
+			in.Cur = append(in.Cur, Op{K: k, V: big, M: true})
+			in.Prev = append(in.Prev, Op{K: k, V: small, M: true})
+		case 1: // previous huge, current small: clipped to nothing
+			in.Cur = append(in.Cur, Op{K: k, V: small, M: true})
+			in.Prev = append(in.Prev, Op{K: k, V: big, M: true})
+		case 2: // only the previous snapshot has it, huge
+			in.Prev = append(in.Prev, Op{K: k, V: big, M: true})
+		default: // both huge
+			in.Cur = append(in.Cur, Op{K: k, V: big, M: true})
+			in.Prev = append(in.Prev, Op{K: k, V: lib.Pick(r, []uint64{1 << 63, 1<<64 - 1, 1<<63 + 5}), M: true})
+		}
+		in.M, in.D = 1, 1 // v*m must stay below 2^64
+		in.Ratio = "one-side-ge-2^63"
+	}
+	// session level stream
+	if idx%11 == 7 {
+		stacks := [][]byte{[]byte("main;alloc"), []byte("main;alloc;x"), []byte("main;a"), []byte("gc"), []byte("main;allocate")}
+		types := [][]string{{"alloc_objects"}, {"alloc_space"}, {"alloc_objects", "inuse_objects"}, {"alloc_space", "alloc_objects"}}[r.Intn(4)]
+		nw := lib.Range(r, 2, 5)
+		for _, ty := range types {
+			st := SessType{Type: ty}
+			counters := map[string]uint64{}
+			for w := 0; w < nw; w++ {
+				var win []trieu.KV
+				if !(w > 0 && lib.Chance(r, 0.35)) { // otherwise: an idle window, the spy reports nothing
+					for _, sk := range stacks {
+						if lib.Chance(r, 0.6) {
+							counters[string(sk)] += uint64(r.Intn(6))
+							v := counters[string(sk)]
+							if lib.Chance(r, 0.1) {
+								v = uint64(r.Intn(3)) // a counter that went backwards
+							}
+							if lib.Chance(r, 0.2) && v > 1 { // the same stack twice in one reading
+								win = append(win, trieu.KV{K: sk, V: 1}, trieu.KV{K: sk, V: v - 1})
+							} else {
+								win = append(win, trieu.KV{K: sk, V: v})
+							}
+						}
+					}
+				}
+				st.Wins = append(st.Wins, win)
+			}
+			in.Sess = append(in.Sess, st)
+		}
+	}
 	return in
+}
+
+// ---- session level: scripted spies and a recording upstream ----
+type scriptSpy struct {
+	mu        sync.Mutex
+	wins      [][]trieu.KV
+	w         int
+	emitted   bool
+	resetSeen bool
+}
+
+func (s *scriptSpy) Stop() error { return nil }
+
+// Reset is called at the tick that closes an upload window, before that tick's Snapshot calls
+func (s *scriptSpy) Reset() { s.mu.Lock(); s.resetSeen = true; s.mu.Unlock() }
+
+func (s *scriptSpy) Snapshot(cb func([]byte, uint64, error)) {
+	s.mu.Lock()
+	var emit []trieu.KV
+	if !s.emitted && s.w < len(s.wins) {
+		emit = s.wins[s.w]
+		s.emitted = true
+	}
+	if s.resetSeen { // this Snapshot still belongs to the window being closed
+		s.resetSeen = false
+		s.w++
+		s.emitted = false
+	}
+	s.mu.Unlock()
+	for _, kv := range emit {
+		cb(append([]byte{}, kv.K...), kv.V, nil)
+	}
+}
+
+func (s *scriptSpy) done() bool { s.mu.Lock(); defer s.mu.Unlock(); return s.w >= len(s.wins) }
+
+type recUpstream struct {
+	mu   sync.Mutex
+	jobs map[string][][]trieu.KV
+}
+
+func (u *recUpstream) Stop() {}
+func (u *recUpstream) Upload(j *upstream.UploadJob) {
+	it := trieu.Iter(j.Trie)
+	u.mu.Lock()
+	u.jobs[j.Name] = append(u.jobs[j.Name], it)
+	u.mu.Unlock()
+}
+
+func runSession(sess []SessType) string {
+	if len(sess) == 0 {
+		return "[]"
+	}
+	up := &recUpstream{jobs: map[string][][]trieu.KV{}}
+	pts := make([]spy.ProfileType, len(sess))
+	spies := make([]spy.Spy, len(sess))
+	scripts := make([]*scriptSpy, len(sess))
+	for i, st := range sess {
+		pts[i] = spy.ProfileType(st.Type)
+		scripts[i] = &scriptSpy{wins: st.Wins}
+		spies[i] = scripts[i]
+	}
+	ps := agent.VerifNewSessionWithSpies(&agent.SessionConfig{
+		Upstream: up, AppName: "sess", ProfilingTypes: pts, SampleRate: 1000, UploadRate: 20 * time.Millisecond, Pid: 0,
+	}, &agent.NoopLogger{}, spies)
+	deadline := time.Now().Add(20 * time.Second)
+	for time.Now().Before(deadline) {
+		all := true
+		for _, s := range scripts {
+			if !s.done() {
+				all = false
+			}
+		}
+		if all {
+			break
+		}
+		time.Sleep(time.Millisecond)
+	}
+	ps.Stop()
+	time.Sleep(5 * time.Millisecond)
+	items := make([]string, len(sess))
+	up.mu.Lock()
+	defer up.mu.Unlock()
+	for i, st := range sess {
+		wins := make([]string, len(st.Wins))
+		for k, w := range st.Wins {
+			wins[k] = trieu.CoqKVs(w)
+		}
+		jobs := []string{}
+		for _, j := range up.jobs["sess."+st.Type] {
+			jobs = append(jobs, trieu.CoqKVs(j))
+		}
+		items[i] = "(" + lib.Bool(pts[i].IsCumulative()) + ", " + lib.List(wins) + ", " + lib.List(jobs) + ")"
+	}
+	return lib.List(items)
 }
 
 func build(ops []Op, reuse string) *transporttrie.Trie {
@@ -311,7 +480,7 @@ func run(in Input) (res lib.Result) {
 		"; c_prev_dump2 := " + trieu.Coq(prevDump2) + "; c_prev_iter2 := " + trieu.CoqKVs(prevIter2) +
 		"; c_diff_dump := " + trieu.Coq(diffDump) + "; c_diff_iter := " + trieu.CoqKVs(diffIter) +
 		"; c_diff_rt := " + diffRT + "; c_scaled := " + scaled +
-		"; c_scaled_held := " + scaledHeld + "; c_diff_held := " + diffHeld + " |}"
+		"; c_scaled_held := " + scaledHeld + "; c_diff_held := " + diffHeld + "; c_sess := " + runSession(in.Sess) + " |}"
 
 	// features: did a key of prev that cur does not have force a split; did a count underflow
 	curSet, diffSet := trieu.NodeSet(curDump), trieu.NodeSet(diffDump)
@@ -353,9 +522,21 @@ func run(in Input) (res lib.Result) {
 		Feat: map[string]interface{}{"class": in.Class, "cur_ops": len(in.Cur), "prev_ops": len(in.Prev),
 			"key_slices": map[string]string{"": "fresh", "shared-buffer": "shared-buffer", "mutate-after": "mutate-after"}[in.Reuse], "split": split, "underflow": underflow, "prev_only_key": prevOnly, "ratio": ratio,
 			"cur_nodes": trieu.Size(curDump), "diff_nodes": trieu.Size(diffDump), "max_fanout_gt16": maxFan(curDump) > 16,
-			"exact_multiple_count": exactMultiple(curIter, in.M, in.D), "count_ge_2^53": bigCount(curIter)},
+			"exact_multiple_count": exactMultiple(curIter, in.M, in.D), "count_ge_2^53": bigCount(curIter),
+			"one_side_ge_2^63": in.Ratio == "one-side-ge-2^63", "session_types": len(in.Sess), "session_idle_window": sessIdle(in.Sess)},
 		Obs: map[string]interface{}{"diff": diffIter},
 	}
+}
+
+func sessIdle(sess []SessType) bool {
+	for _, st := range sess {
+		for i, w := range st.Wins {
+			if i > 0 && len(w) == 0 {
+				return true
+			}
+		}
+	}
+	return false
 }
 
 func maxFan(n *transporttrie.VerifNode) int {
